@@ -1015,6 +1015,11 @@ theorem Inv_applyOp (s : St) (o : Op) (h : Inv s) : Inv (applyOp s o).1 := by
     · split
       · (dsimp only; refine Inv_create s h _ rfl ?_; exact h.root)
       · exact h
+  | batchReg ttl max ren now =>
+    simp only [applyOp, batchReg]
+    split
+    · (dsimp only; refine Inv_create s h _ rfl ?_; exact h.root)
+    · exact h
   | nsReg ns ttl max ren now =>
     simp only [applyOp, nsReg]
     split
@@ -1277,7 +1282,7 @@ theorem settle_resolves (fuel : Nat) (s : St) (now : Int) (hfr : s.frozen = fals
       · exact hfuel
 
 theorem renewableCheck_some (l : Lease) (now : Int)
-    (h : l.irrevocable = true ∨ l.expiry = none ∨ expired l now = true ∨ l.renewable = false) :
+    (h : l.irrevocable = true ∨ l.expiry = none ∨ expired l now = true ∨ (l.renewable = false ∧ l.batch = false)) :
     ∃ e, renewableCheck l now = some e := by
   unfold renewableCheck
   by_cases h1 : l.irrevocable = true
@@ -1287,13 +1292,13 @@ theorem renewableCheck_some (l : Lease) (now : Int)
     · have hn : l.expiry.isNone = false := by cases he : l.expiry <;> simp_all
       by_cases h3 : expired l now = true
       · exact ⟨"expired", by simp [h1, hn, h3]⟩
-      · have h4 : l.renewable = false := by
+      · have h4 : l.renewable = false ∧ l.batch = false := by
           rcases h with h | h | h | h
           · exact absurd h h1
           · exact absurd h h2
           · exact absurd h h3
           · exact h
-        exact ⟨"notrenewable", by simp [h1, hn, h3, h4]⟩
+        exact ⟨"notrenewable", by simp [h1, hn, h3, h4.1, h4.2]⟩
 
 /-- replacing a stored lease: the new entry is in storage -/
 theorem mem_putLease_of_stored (s : St) (l l2 : Lease) (hl : l ∈ s.stored) (hid : l2.id = l.id) :
